@@ -2,7 +2,7 @@
 (* Layer I: LuaMinifyTokenWriter's separator automaton over token spelling classes, checked
    against Layer P's core clause: the emitted text re-lexes (P8Lex) to the same token spellings. *)
 EXTENDS P8Lex, Json, TLCExt
-CONSTANTS N, Fixed       \* sequence length bound; Fixed = model the repaired separator rule
+CONSTANTS N            \* sequence length bound
 \* token classes: [k |-> kind, w |-> spelling]
 S(str) == str
 Toks == {
@@ -15,18 +15,28 @@ Toks == {
   [k |-> "sym", w |-> <<61>>], [k |-> "sym", w |-> <<60>>], [k |-> "sym", w |-> <<62>>], [k |-> "sym", w |-> <<126>>],
   [k |-> "sym", w |-> <<47>>], [k |-> "sym", w |-> <<58>>], [k |-> "sym", w |-> <<43>>], [k |-> "sym", w |-> <<94>>],
   [k |-> "label", w |-> <<58,58,108,58,58>>] }
-VARIABLES seq, out, lastWord
-vars == <<seq, out, lastWord>>
-Init == seq = <<>> /\ out = <<>> /\ lastWord = FALSE
+VARIABLES seq, out, lastWord, lastNl
+vars == <<seq, out, lastWord, lastNl>>
+Init == seq = <<>> /\ out = <<>> /\ lastWord = FALSE /\ lastNl = TRUE
 Wordy(t) == t.k \in {"name", "kw", "num"}
-\* repaired rule: also separate when the concatenation of the previous and next spelling would lex differently
+\* the pairwise repaired rule of the draft (kept for comparison): separate when the concatenation lexes differently
 Glues(prev, t) == LET cat == prev.w \o t.w  a == NextTok(cat, 1) IN
                     a.k \in Bad \/ a.e # Len(prev.w) + 1 \/
                     (LET b == NextTok(cat, a.e) IN b.k \in Bad \/ b.e # Len(cat) + 1)
+\* LuaMinifyTokenWriter._would_fuse as written in the code (Rule = "code")
+IsNumSpelling(w) == w[1] \in Digit \/ (w[1] = 46 /\ Len(w) > 1 /\ w[2] \in Digit)
+WouldFuse(prev, t) == LET pair == << prev.w[Len(prev.w)], t.w[1] >> IN
+                        pair \in { <<45, 45>>, <<91, 91>>, <<46, 46>> } \/ (IsNumSpelling(prev.w) /\ t.w[1] = 46)
+CONSTANT Rule          \* "pinned" (no fuse rule), "code" (the current writer), "pairwise" (draft repair)
 Emit(t) ==
-  LET needSp == (Wordy(t) /\ lastWord) \/ (Fixed /\ seq # <<>> /\ Glues(seq[Len(seq)], t)) IN
+  LET prevOK == seq # <<>> /\ ~lastNl
+      fuse == CASE Rule = "code" -> prevOK /\ t.k \notin {"name", "kw", "label"} /\ WouldFuse(seq[Len(seq)], t)
+                [] Rule = "pairwise" -> prevOK /\ Glues(seq[Len(seq)], t)
+                [] OTHER -> FALSE
+      needSp == (Wordy(t) /\ lastWord) \/ fuse IN
   /\ out' = out \o (IF needSp THEN <<32>> ELSE <<>>) \o t.w
   /\ lastWord' = IF Wordy(t) THEN TRUE ELSE (t.k = "sym" /\ t.w \in {<<93>>, <<41>>, <<125>>})
+  /\ lastNl' = FALSE
   /\ seq' = Append(seq, t)
 Next == Len(seq) < N /\ \E t \in Toks : Emit(t)
 Spec == Init /\ [][Next]_vars
@@ -38,5 +48,7 @@ Relex(s, i) == IF i > Len(s) THEN <<>> ELSE
      ELSE IF t.k = "sp" THEN Relex(s, t.e)
      ELSE << SubSeq(s, i, t.e - 1) >> \o Relex(s, t.e)
 RelexOK == Relex(out, 1) = [j \in 1..Len(seq) |-> seq[j].w]
-Report == RelexOK \/ PrintT(<<"GLUE", [j \in 1..Len(seq) |-> seq[j].w], out>>)
+Report == RelexOK \/ PrintT(ToJson([glue |-> [j \in 1..Len(seq) |-> [k |-> seq[j].k, w |-> seq[j].w]], out |-> out]))
+\* code ~ Layer I conformance: every reachable emission (sequence, text)
+EmitAll == seq # <<>> => PrintT(ToJson([toks |-> [j \in 1..Len(seq) |-> [k |-> seq[j].k, w |-> seq[j].w]], out |-> out]))
 =============================================================================
